@@ -358,6 +358,22 @@ def run_sym(ctx, p):
     ctx.nontrivial('sym', which)
 
 
+def run_shape(ctx, p):
+    """the inverse maps are defined on square matrices of their algebra's size: an array of another shape has no vector (a 3 x 4 array is
+    not "the top of" an se(3) matrix) and is refused, it is not answered with numbers taken from somewhere in it"""
+    b = B()
+    f = {'vex': b.vex, 'vexa': b.vexa}[p['which']]
+    M = np.arange(1.0, 1.0 + p['shape'][0] * p['shape'][1]).reshape(p['shape']) * 0.25
+    try:
+        r = f(M)
+        err = None
+    except Exception as e:
+        r, err = None, e
+    ctx.judge('maps', err is not None, dict(api=p['which'], kind='array_of_wrong_shape_accepted', shape='%dx%d' % tuple(p['shape'])),
+              lambda: '%s of a %d x %d array returned %s' % (p['which'], p['shape'][0], p['shape'][1], core.short(r, 100)))
+    ctx.cell('shape', p['which'], '%dx%d' % tuple(p['shape']))
+
+
 def run_exact(ctx, p):
     """matrices whose entries are whole numbers (a rotation of the cube, integer translations) held in an integer or narrow float
     element type: the inverse, the two-argument difference and the adjoint of the inverse are those of the same numbers in float64"""
@@ -386,7 +402,7 @@ def run_exact(ctx, p):
     ctx.nontrivial(p['which'], str(dt), T0.reshape(-1).tolist())
 
 
-RUNNERS = {'exact': run_exact, 'adj_multi': run_adj_multi, 'maps': run_maps, 'adj': run_adj, 'adj3': run_adj3, 'delta': run_delta, 'sym': run_sym}
+RUNNERS = {'shape': run_shape, 'exact': run_exact, 'adj_multi': run_adj_multi, 'maps': run_maps, 'adj': run_adj, 'adj3': run_adj3, 'delta': run_delta, 'sym': run_sym}
 
 
 def REACH():
@@ -423,7 +439,7 @@ def run(ctx):
             if np.any(vi):
                 drive(RUNNERS, ctx, 'maps', dict(which=which, v=[int(x) for x in vi], u=gen.vec(rng, n, 1e-2, 1e2), itype=it, iform=['array', 'scalars'][rng.integers(2)]))
     for _ in range(ctx.scale(300, 6000)):
-        n = int(rng.integers(2, 5))
+        n = int(rng.integers(2, 8))
         if rng.random() < 0.1:
             n = int([8, 9, 16, 17, 32, 33, 40, 64, 100][rng.integers(9)])        # many values (a batch path would show here)
         kinds, Ss = [], []
@@ -447,6 +463,12 @@ def run(ctx):
             ctx.sample(dict(case='adj', **p))
     for _ in range(ctx.scale(300, 5000)):
         drive(RUNNERS, ctx, 'adj3', dict(R=gen.so3(rng)))
+    k_ = 0
+    for which in ('vex', 'vexa'):
+        for shape in ((3, 4), (4, 3), (4, 5), (3, 5), (2, 3), (3, 2), (5, 5), (1, 1), (4, 6), (2, 4)):
+            k_ += 1
+            if ctx.mine(k_):
+                drive(RUNNERS, ctx, 'shape', dict(which=which, shape=list(shape)))
     for _ in range(ctx.scale(400, 8000)):
         dt = ['int8', 'uint8', 'int16', 'int32', 'int64', 'uint16', 'float32', 'float16'][rng.integers(8)]
         which = ['trinv', 'tr2delta2', 'adjoint_inv', 'trinv2'][rng.integers(4)]
